@@ -79,6 +79,18 @@ def check(case, ctx):
             return
         ctx.close("lpr==closed-form", got / ref, np.ones(len(xt)), 1e-6, "LPR of test structure %d (relative)" % i)
         ctx.true("lpr-positive", bool(np.all(got > 0)), "non-positive LPR")
+    # every test structure is scored independently of the other test structures in the call
+    if len(Xte) >= 2:
+        with ctx.lib("LPR-single"):
+            solo = [LPR(Xtr, [xt], alpha)[0][0] for xt in Xte]
+        for a_, b_ in zip(lpr, solo):
+            ctx.close("structure-independence:lpr", np.asarray(b_) / np.asarray(a_), np.ones(len(a_)), 1e-12, "a test structure scored alone vs in a list")
+        with ctx.lib("CPR-single"):
+            cps = [CPR(Xtr, [xt], alpha, cd) for xt in Xte]
+            cpa = CPR(Xtr, Xte, alpha, cd)
+        for i in range(len(Xte)):
+            ctx.close("structure-independence:cpr", np.asarray(cps[i][0])[0] / np.asarray(cpa[0])[i], np.ones(len(cd)), 1e-12, "CPR of structure %d alone vs in a list" % i)
+            ctx.close("structure-independence:lcpr", np.asarray(cps[i][1][0]) / np.asarray(cpa[1][i]), np.ones_like(np.asarray(cpa[1][i])), 1e-12, "LCPR of structure %d alone vs in a list" % i)
     # scaling law and monotonicity
     c = case["c"]
     with ctx.lib("LPR-rescaled"):
